@@ -235,6 +235,33 @@ def pruned_names_only(ex):
     return FAll("k", 0, dn.length, excluded, "pruned")
 
 
+def no_unexcluded_name_dropped(ex):
+    """C17 walk.prune_complete: the pruning drops nothing else -- every name of the list the pruning comprehension filters
+    (the names os.walk yielded for this directory) that _is_dir_excluded does NOT exclude is still in the list object os.walk
+    descends from, so no directory (hidden or not) is skipped for a reason other than the exclusions"""
+    env = ex.envs[0]
+    dn = ex.walk_objects["dirnames"]
+    comp = getattr(ex, "last_comp", None)
+    fo = getattr(comp, "filter_of", None)
+    if fo is None:
+        return False
+    src, idx, inv = fo
+    root = ex.old_envs[0]["root"]
+    dirpath = env.get("dirpath")
+    ti = env.get("tool_ignore")
+    if dirpath is None or ti is None:
+        return False
+    cur = Sym(ex.th.uf("call_Path", ex.th.Str, Ref)(ex.z(dirpath)), "ref", "Path")
+    rel = Sym(ex.th.uf("call_Path_relative_to", Ref, Ref, Ref)(cur.t, ex.z(root)), "ref", "Path")
+    def kept(c):
+        d = ex.list_get(src, c)
+        r = dirx_uf(ex, None, [d, ex.unit.path_join(ex, rel, d), cur, ti, root], {})
+        at = inv(c)
+        return FT(z3.Implies(z3.Not(ex.b(ex.truth(r))),
+                             z3.And(0 <= at, at < ex.z(dn.length), ex.b(ex.truth(ex.eq(ex.list_get(dn, at), d))))))
+    return FAll("j", 0, src.length, kept, "prune-complete")
+
+
 def no_followlinks(ex):
     w = [e for e in ex.log if e[0] == "OS_WALK"]
     return len(w) == 1 and w[0][1]["nargs"] == 1 and not w[0][1]["kwargs"] and ex.eq(w[0][1]["top"], ex.old_envs[0]["root"]) is not False
@@ -269,12 +296,15 @@ contract(Contract(
     },
     loops={
         0: Loop(inv={}, body_ensures={"prune_in_place": Clause(prune_in_place, props=["C17"]),
-                                      "only_unexcluded_names_left": Clause(pruned_names_only, props=["C17", "C18"])}),
+                                      "only_unexcluded_names_left": Clause(pruned_names_only, props=["C17", "C18"]),
+                                      "no_unexcluded_name_dropped": Clause(no_unexcluded_name_dropped, props=["C17"])}),
         1: Loop(inv={}, body_ensures={"yield_iff": Clause(yield_iff, props=["C17", "C18"])}),
     },
     ensures={"no_followlinks": Clause(no_followlinks, props=["C17"])},
     canaries=[
         ("            dirnames[:] = [", "            dirnames = [", ["C17"], ["iter-ensures[loop0"]),
+        ("                if not self._is_dir_excluded(d, rel_to_root / d, current, tool_ignore, root)",
+         "                if not d.startswith('.') and not self._is_dir_excluded(d, rel_to_root / d, current, tool_ignore, root)", ["C17"], ["no_unexcluded_name_dropped"]),
         ("for dirpath, dirnames, filenames in os.walk(root):", "for dirpath, dirnames, filenames in os.walk(root, followlinks=True):", ["C17"], ["post[no_followlinks"]),
         ("                if filepath.is_symlink():\n", "                if False:\n", ["C17"], ["iter-ensures[loop1"]),
         ("            if self._config.respect_gitignore:\n                gitignore_specs", "            if True:\n                gitignore_specs", ["C18"], ["iter-ensures[loop1"]),
